@@ -168,22 +168,34 @@ var zzC18DayKeys = [7]string{"sun", "mon", "tue", "wed", "thu", "fri", "sat"}
 // Sunday first, in nanoseconds.
 type zzC18Week [7][2]int64
 
+// zzC18JSONExact reports whether a duration of ns nanoseconds can be written
+// as a JSON number of milliseconds that a binary floating-point decoder reads
+// back exactly: the fraction of a millisecond must be a multiple of 1/64 ms.
+// Other fractions are exercised through the YAML form only.
+func zzC18JSONExact(ns int64) (ok bool) { return ns%15625 == 0 }
+
+// zzC18MsText writes ns nanoseconds as a decimal number of milliseconds,
+// exactly, in one of several spellings.
 func zzC18MsText(rng *rand.Rand, ns int64) (s string) {
-	ms := float64(ns) / 1e6
+	if ns%1e6 != 0 {
+		sign, a := "", ns
+		if a < 0 {
+			sign, a = "-", -a
+		}
+
+		return strings.TrimRight(fmt.Sprintf("%s%d.%06d", sign, a/1e6, a%1e6), "0")
+	}
+
 	switch rng.Intn(3) {
 	case 0:
-		if ns%1e6 == 0 {
-			return fmt.Sprintf("%d.0", ns/1e6)
-		}
+		return fmt.Sprintf("%d.0", ns/1e6)
 	case 1:
-		if ns%1e6 == 0 && ns != 0 {
+		if ns != 0 {
 			return fmt.Sprintf("%de0", ns/1e6)
 		}
 	}
 
-	b, _ := json.Marshal(ms)
-
-	return string(b)
+	return fmt.Sprintf("%d", ns/1e6)
 }
 
 func zzC18DurText(rng *rand.Rand, ns int64) (s string) {
@@ -201,6 +213,8 @@ func zzC18DurText(rng *rand.Rand, ns int64) (s string) {
 		if ns%int64(time.Millisecond) == 0 {
 			return fmt.Sprintf("%dms", ns/int64(time.Millisecond))
 		}
+
+		return fmt.Sprintf("%dns", ns)
 	}
 
 	return d.String()
@@ -285,21 +299,34 @@ func zzC18Build(rng *rand.Rand, zone string, wk zzC18Week) (w *Weekly, via strin
 	return w, via, err
 }
 
+// The representations in which an instant is handed to Contains.  The
+// statement quantifies over instants: the verdict must not depend on the
+// Location the caller's time.Time happens to carry.
+var zzC18PresNames = []string{"utc", "schedule-zone", "+05:45", "local", "far"}
+
 var zzC18OtherZone = time.FixedZone("verif", 5*3600+45*60)
 
-// zzC18Present returns the instant in one of several presentations; Contains
-// must not depend on the Location the caller's Time carries.
-func zzC18Present(rng *rand.Rand, s, n int64, loc *time.Location) (t time.Time) {
+// zzC18Present returns the instant (s, n) in representation pres.  "far" is a
+// fixed zone twelve hours away from the schedule zone's offset off at that
+// instant, so that it shows another calendar day for half of all instants.
+func zzC18Present(pres int, s, n int64, loc *time.Location, off int64) (t time.Time) {
 	t = time.Unix(s, n)
-	switch rng.Intn(4) {
+	switch pres {
 	case 0:
 		return t.UTC()
 	case 1:
 		return t.In(loc)
 	case 2:
 		return t.In(zzC18OtherZone)
-	default:
+	case 3:
 		return t
+	default:
+		far := off + 12*3600
+		if far > 14*3600 {
+			far = off - 12*3600
+		}
+
+		return t.In(time.FixedZone("far", int(far)))
 	}
 }
 
@@ -323,15 +350,22 @@ type zzC18Vec struct {
 	W     [][2]int64 `json:"w"`
 	Pts   [][7]int64 `json:"pts"`
 
+	// Pres, when set, is the one representation of the instant to use (the
+	// isolated re-run of a recorded call); otherwise all are used.
+	Pres *int `json:"pres"`
+
 	// Serialisation vectors.
 	D        int      `json:"d"`
 	S        int64    `json:"s"`
 	E        int64    `json:"e"`
+	SN       int64    `json:"sn"`
+	EN       int64    `json:"en"`
 	Fill     string   `json:"fill"`
 	Verdicts []string `json:"verdicts"`
 
 	// Re-run of a recorded serialised week (milliseconds).
 	WMs [][2]int64 `json:"wms"`
+	WNs [][2]int64 `json:"wns"`
 }
 
 func zzC18WeekOfSeconds(w [][2]int64) (wk zzC18Week, ok bool) {
@@ -387,11 +421,15 @@ func TestZZVerifC18Replay(t *testing.T) {
 
 			for i, r := range v.WMs {
 				wk[i] = [2]int64{r[0] * int64(time.Millisecond), r[1] * int64(time.Millisecond)}
+				if len(v.WNs) == 7 {
+					wk[i][0] += v.WNs[i][0]
+					wk[i][1] += v.WNs[i][1]
+				}
 			}
 
 			what, detail, acc := zzC18CheckDocs(rng, v.Zone, wk, []string{"accept", "reject"})
 			w.put(map[string]any{
-				"kind": "week", "c": v.C, "ser": []int{zzC18Bit(acc[0]), zzC18Bit(acc[1]), zzC18Bit(what == "")},
+				"kind": "week", "c": v.C, "ser": []int{acc[0], acc[1], zzC18Bit(what == "")},
 				"what": what, "detail": detail,
 			})
 		}
@@ -456,36 +494,49 @@ func zzC18ReplayEval(w *zzWriter, rng *rand.Rand, v *zzC18Vec) (evals, bad, conc
 			trueN++
 		}
 
-		got := sched.Contains(zzC18Present(rng, s, n, loc))
-		if got == want {
-			continue
+		// Every representation of the instant (or the one recorded).
+		first, last := 0, len(zzC18PresNames)-1
+		if v.Pres != nil {
+			first, last = *v.Pres, *v.Pres
 		}
 
-		// Reproduce in isolation: fresh location, a Weekly constructed the
-		// way the package's own tests do, the plain UTC instant.
-		loc2, _ := time.LoadLocation(v.Zone)
-		fresh := &Weekly{location: loc2}
-		for i, r := range wk {
-			fresh.days[i] = dayRange{start: time.Duration(r[0]), end: time.Duration(r[1])}
-		}
+		for pres := first; pres <= last; pres++ {
+			got := sched.Contains(zzC18Present(pres, s, n, loc, off))
+			if got == want {
+				continue
+			}
 
-		got2 := fresh.Contains(time.Unix(s, n).UTC())
-		if got2 == want {
-			got3 := sched.Contains(time.Unix(s, n).UTC())
+			// Reproduce in isolation: fresh location, a Weekly constructed
+			// the way the package's own tests do, exactly the same instant
+			// in exactly the same representation.
+			loc2, _ := time.LoadLocation(v.Zone)
+			fresh := &Weekly{location: loc2}
+			for i, r := range wk {
+				fresh.days[i] = dayRange{start: time.Duration(r[0]), end: time.Duration(r[1])}
+			}
+
+			got2 := fresh.Contains(zzC18Present(pres, s, n, loc2, off))
+			if got2 == want {
+				got3 := sched.Contains(zzC18Present(pres, s, n, loc, off))
+				w.put(map[string]any{
+					"kind": "flaky", "c": v.C, "zone": v.Zone, "pt": p, "via": via, "again": got3, "pres": pres,
+				})
+
+				continue
+			}
+
+			bad++
 			w.put(map[string]any{
-				"kind": "flaky", "c": v.C, "zone": v.Zone, "pt": p, "via": via, "again": got3,
+				"kind": "bad", "what": "contains", "c": v.C, "zone": v.Zone, "shape": v.Shape,
+				"w": v.W, "pt": p, "range": v.W[wd], "want": want, "got": got2, "via": via,
+				"pres": pres, "given_as": zzC18Present(pres, s, n, loc, off).Format("Mon 2006-01-02 15:04:05.999999999 -07:00"),
+				"utc":   time.Unix(s, n).UTC().Format(time.RFC3339Nano),
+				"local": time.Unix(s, n).In(loc).Format("Mon 2006-01-02 15:04:05.999999999 -07:00"),
 			})
 
-			continue
+			// One report per row is enough.
+			break
 		}
-
-		bad++
-		w.put(map[string]any{
-			"kind": "bad", "what": "contains", "c": v.C, "zone": v.Zone, "shape": v.Shape,
-			"w": v.W, "pt": p, "range": v.W[wd], "want": want, "got": got2, "via": via,
-			"utc":   time.Unix(s, n).UTC().Format(time.RFC3339Nano),
-			"local": time.Unix(s, n).In(loc).Format("Mon 2006-01-02 15:04:05.999999999 -07:00"),
-		})
 	}
 
 	return evals, bad, conc, trueN
@@ -507,7 +558,7 @@ func zzC18SerWeek(v *zzC18Vec) (wk zzC18Week) {
 		wk[i] = fill
 	}
 
-	wk[v.D] = [2]int64{v.S * ms, v.E * ms}
+	wk[v.D] = [2]int64{v.S*ms + v.SN, v.E*ms + v.EN}
 
 	return wk
 }
@@ -525,17 +576,34 @@ func zzC18Has(set []string, x string) (ok bool) {
 // zzC18CheckDocs decodes both serialised forms of wk and checks the verdict
 // and, for accepted schedules, that nothing changes on any round trip.  It
 // returns a description of the first disagreement.
-func zzC18CheckDocs(rng *rand.Rand, zone string, wk zzC18Week, verdicts []string) (what, detail string, acc [2]bool) {
+func zzC18CheckDocs(rng *rand.Rand, zone string, wk zzC18Week, verdicts []string) (what, detail string, acc [2]int) {
 	jdoc, ydoc := zzC18JSONDoc(rng, zone, wk), zzC18YAMLDoc(rng, zone, wk)
 
+	// acc: 1 accepted, 0 refused, 2 form not exercised.
+	useJSON := true
+	for _, r := range wk {
+		useJSON = useJSON && zzC18JSONExact(r[0]) && zzC18JSONExact(r[1])
+	}
+
 	wj, wy := &Weekly{}, &Weekly{}
-	errJ := json.Unmarshal([]byte(jdoc), wj)
+	var errJ error
+	if useJSON {
+		errJ = json.Unmarshal([]byte(jdoc), wj)
+	}
+
 	errY := yaml.Unmarshal([]byte(ydoc), wy)
-	acc = [2]bool{errJ == nil, errY == nil}
+	acc = [2]int{zzC18Bit(errJ == nil), zzC18Bit(errY == nil)}
+	if !useJSON {
+		acc[0] = 2
+	}
 
 	for i, e := range []error{errJ, errY} {
 		form := []string{"json", "yaml"}[i]
 		doc := []string{jdoc, ydoc}[i]
+		if i == 0 && !useJSON {
+			continue
+		}
+
 		if e == nil && !zzC18Has(verdicts, "accept") {
 			return "accepted-" + form, doc, acc
 		}
@@ -557,7 +625,7 @@ func zzC18CheckDocs(rng *rand.Rand, zone string, wk zzC18Week, verdicts []string
 		json bool
 	}
 
-	if errJ == nil {
+	if useJSON && errJ == nil {
 		if !same(wj) {
 			return "changed-on-read-json", fmt.Sprint(jdoc, " -> ", fmt.Sprint(zzC18Project(wj))), acc
 		}
@@ -570,7 +638,7 @@ func zzC18CheckDocs(rng *rand.Rand, zone string, wk zzC18Week, verdicts []string
 	}
 
 	hops := []hop{}
-	if errJ == nil {
+	if useJSON && errJ == nil {
 		hops = append(hops, hop{"json>json", wj, true}, hop{"json>yaml", wj, false})
 	}
 
@@ -615,7 +683,7 @@ func zzC18ReplaySer(w *zzWriter, rng *rand.Rand, v *zzC18Vec, zones []string) (b
 	wk := zzC18SerWeek(v)
 	what, detail, acc := zzC18CheckDocs(rng, zone, wk, v.Verdicts)
 	if what == "" {
-		w.put(map[string]any{"kind": "ser", "d": v.D, "s": v.S, "e": v.E, "fill": v.Fill, "acc": acc})
+		w.put(map[string]any{"kind": "ser", "d": v.D, "s": v.S, "sn": v.SN, "e": v.E, "en": v.EN, "fill": v.Fill, "acc": acc})
 
 		return 0
 	}
@@ -629,7 +697,7 @@ func zzC18ReplaySer(w *zzWriter, rng *rand.Rand, v *zzC18Vec, zones []string) (b
 	}
 
 	w.put(map[string]any{
-		"kind": "bad", "what": "ser:" + what2, "d": v.D, "s": v.S, "e": v.E, "fill": v.Fill,
+		"kind": "bad", "what": "ser:" + what2, "d": v.D, "s": v.S, "sn": v.SN, "e": v.E, "en": v.EN, "fill": v.Fill,
 		"verdicts": v.Verdicts, "zone": zone, "detail": detail2,
 	})
 
@@ -762,7 +830,7 @@ func TestZZVerifC18Trace(t *testing.T) {
 		if err != nil {
 			w.put(map[string]any{
 				"k": "build", "zone": zone, "s": 0, "n": 0, "off": 0, "wd": 0, "tod": 0, "w": ws,
-				"got": 0, "via": via, "ser": []int{}, "detail": err.Error(),
+				"got": 0, "via": via, "ser": []int{}, "detail": err.Error(), "wn": zzC18NoSub, "pres": 0,
 			})
 
 			continue
@@ -775,7 +843,8 @@ func TestZZVerifC18Trace(t *testing.T) {
 
 		s, ns := it.Unix(), int64(it.Nanosecond())
 		off, wd, tod := zzC18WallOf(s, ns, loc)
-		got := sched.Contains(zzC18Present(rng, s, ns, loc))
+		pres := rng.Intn(len(zzC18PresNames))
+		got := sched.Contains(zzC18Present(pres, s, ns, loc, off))
 
 		g := 0
 		if got {
@@ -785,6 +854,7 @@ func TestZZVerifC18Trace(t *testing.T) {
 		w.put(map[string]any{
 			"k": "eval", "zone": zone, "s": s, "n": ns, "off": off, "wd": wd, "tod": tod, "w": ws,
 			"got": g, "via": via, "ser": []int{}, "detail": "", "offs": zzC18DayOffsets(it, loc),
+			"wn": zzC18NoSub, "pres": pres,
 		})
 	}
 }
@@ -819,6 +889,8 @@ func zzC18DayOffsets(t time.Time, loc *time.Location) (offs []int64) {
 	return offs
 }
 
+var zzC18NoSub = [7][2]int64{}
+
 func zzC18Bit(x bool) (b int) {
 	if x {
 		return 1
@@ -828,7 +900,8 @@ func zzC18Bit(x bool) (b int) {
 }
 
 // zzC18TraceSer logs how the real decoders treat a random serialised
-// schedule (milliseconds; values of any sign and size up to ~11 days).
+// schedule (milliseconds plus nanoseconds; values of any sign and size up to
+// ~11 days).
 func zzC18TraceSer(w *zzWriter, rng *rand.Rand, zone string) {
 	const ms = int64(time.Millisecond)
 	val := func() int64 {
@@ -852,36 +925,51 @@ func zzC18TraceSer(w *zzWriter, rng *rand.Rand, zone string) {
 		}
 	}
 
+	// A sub-millisecond part for about one bound in six: 1 ns, 1/64 ms, 1/2
+	// ms, 1 ms - 1 ns, anything.
+	frac := func() int64 {
+		switch rng.Intn(30) {
+		case 0:
+			return 1
+		case 1:
+			return 15625 * int64(1+rng.Intn(63))
+		case 2:
+			return 500000
+		case 3:
+			return 999999
+		case 4:
+			return rng.Int63n(1000000)
+		default:
+			return 0
+		}
+	}
+
 	var wk zzC18Week
-	var wm [7][2]int64
+	var wm, wn [7][2]int64
 	for d := range wk {
 		switch rng.Intn(4) {
 		case 0:
-			a, b := val(), val()
-			wm[d] = [2]int64{a, b}
+			wm[d] = [2]int64{val(), val()}
+			wn[d] = [2]int64{frac(), frac()}
 		case 1:
 			// Empty.
 		default:
 			r := zzC18RandRange(rng)
 			wm[d] = [2]int64{r[0] / ms, r[1] / ms}
+			if rng.Intn(8) == 0 {
+				wn[d][rng.Intn(2)] = frac()
+			}
 		}
 
-		wk[d] = [2]int64{wm[d][0] * ms, wm[d][1] * ms}
+		// Floor form: value = wm ms + wn ns, 0 <= wn < 1 ms.
+		wk[d] = [2]int64{wm[d][0]*ms + wn[d][0], wm[d][1]*ms + wn[d][1]}
 	}
 
 	// Probe with the full verdict set, so that only the round-trip parts of
 	// zzC18CheckDocs can complain; the verdict itself is judged by TLC.
 	what, detail, acc := zzC18CheckDocs(rng, zone, wk, []string{"accept", "reject"})
-	b := func(x bool) int {
-		if x {
-			return 1
-		}
-
-		return 0
-	}
-
 	w.put(map[string]any{
 		"k": "ser", "zone": zone, "s": 0, "n": 0, "off": 0, "wd": 0, "tod": 0, "w": wm, "got": 0,
-		"via": what, "ser": []int{b(acc[0]), b(acc[1]), b(what == "")}, "detail": detail,
+		"via": what, "ser": []int{acc[0], acc[1], zzC18Bit(what == "")}, "detail": detail, "wn": wn, "pres": 0,
 	})
 }
